@@ -267,6 +267,29 @@ pub fn expect(pre: &Snap, op: &OpKind, ovh: usize, vsz: usize) -> Expect {
     }
 }
 
+/// The one place where the crate forms a sum of sizes before it knows that the result fits: a growing
+/// `mutate` adds the growth to `current_size` and evicts afterwards. With sizes whose sum passes
+/// `usize::MAX` (impossible for objects that exist in memory — assumption A-sizes) that addition
+/// overflows although the grown entry alone fits the limit.
+pub fn expected_overflow(pre: &Snap, op: &OpKind, vsz: usize) -> bool {
+    let (id, h) = match op {
+        OpKind::MutSet { id, h } | OpKind::MutRep { id, h, .. } => (*id, *h),
+        _ => return false,
+    };
+    let (e, idx) = match pre.ord.iter().position(|e| e.k.id == id) {
+        Some(i) => (&pre.ord[i], i),
+        None => return false,
+    };
+    let recorded = pre.rs.as_ref().and_then(|r| r.get(idx).copied()).unwrap_or(e.esize);
+    let (new, old) = (vsz as u128 + h as u128, vsz as u128 + e.v.heap as u128);
+    if new <= old {
+        return false;
+    }
+    let diff = new - old;
+    let new_entry = recorded as u128 + diff;
+    new_entry <= pre.max as u128 && pre.cur as u128 + diff > usize::MAX as u128
+}
+
 /// Monitors that need only the post-state.
 pub fn check_state(post: &Snap, v: &mut Vec<Fail>) {
     if let Some(e) = &post.walk_err {
@@ -394,6 +417,10 @@ pub fn check_outcome(o: &Outcome, ovh: usize, vsz: usize) -> Vec<Fail> {
         && !matches!(op, OpKind::Reserve(_) | OpKind::Shrink(_) | OpKind::ShrinkFit) {
         // no user callback panicked and the allocator did not refuse: the crate's own code panicked
         // (an arithmetic overflow, an unwrap, an assertion) where the operation has a defined result
+        if expected_overflow(pre, op, vsz) {
+            // the boundary of assumption A-sizes: `current_size += diff` of a growing mutate passes usize::MAX
+            return v;
+        }
         let ex = expect(pre, op, ovh, vsz);
         let due = ex.ret.as_ref().map(|r| r.text()).unwrap_or_else(|| "a normal return".to_owned());
         fail(&mut v, ex.ret_prop, format!("{} panicked inside the crate (no user code panicked) where {} is due", op.text(), due));
